@@ -463,6 +463,16 @@ def oracle_surface(ck, rng):
             c = m.copy()
             same = c.rotate_random(copy=False, seed=seed)
             expect(same is c and np.allclose(c.z, r.z) and np.allclose(c.pos, m.pos), "copy", "rotate_random(copy=False) does not update and return the instance", info)
+        # canonical quaternions (scalar part >= 0) of exact half turns and of every cube rotation still denote the same rotation
+        halves = [np.diag([1.0, -1.0, -1.0]), np.diag([-1.0, 1.0, -1.0]), np.diag([-1.0, -1.0, 1.0])] + [R24()[i].astype(float) for i in range(24)]
+        mh = Molecules.from_matrix(np.zeros((len(halves), 3)), np.stack(halves))
+        mq_ = Molecules.from_quat(np.zeros((3, 3)), np.array([[1.0, 0, 0, 0], [0, 1.0, 0, 0], [0, 0, 1.0, 0]]))
+        for mm_, nm_ in ((mh, "from_matrix"), (mq_, "from_quat")):
+            for canon in (True, False):
+                qc = np.asarray(mm_.quaternion(canonical=canon))
+                back_ = Rotation.from_quat(qc).as_matrix() if np.all(np.abs(np.linalg.norm(qc, axis=1) - 1) < 1e-6) else None
+                expect(back_ is not None and np.allclose(back_, mm_.matrix(), atol=1e-6) and (not canon or bool(np.all(qc[:, 3] >= -1e-12))), "canonical-quaternion",
+                       f"quaternion(canonical={canon}) of half turns / cube rotations ({nm_}) is not a unit quaternion of the same rotation: {np.round(qc[:4], 3).tolist()}", {})
         e = Molecules.empty()
         e2 = Molecules.from_random(np.zeros((0, 3)), seed=1)
         for em in (e, e2):
